@@ -2,6 +2,6 @@ SPECIFICATION Spec
 CONSTANTS
   DepthLimit = 64
   StrLens = {0, 65535, 65536}
-  Level = 1
+  Level = 2
 INVARIANTS RoundTrip Total
 ACTION_CONSTRAINT EmitS
